@@ -139,6 +139,17 @@ Definition new_arows (sg : seg) (sn : snap) : list arow :=
 Definition new_txs (sg : seg) (sn : snap) : list Z :=
   filter (fun t => negb (memZ (sn_tx (sg_before sg)) t)) (sn_tx sn).
 
+(* rows written or re-written since the transaction began, whatever id they carry: rows of the snapshot that the
+   snapshot at the beginning of the transaction does not hold with the same identity, operation and data (the end of a
+   validity interval does not count: closing the predecessor changes it in a row of an EARLIER transaction) *)
+Definition same_content (a b : vrow) : bool :=
+  pk_eqb (vkey a) (vkey b) && (vtx a =? vtx b) && (vop a =? vop b) &&
+  list_eqb val_eqb (vdat a) (vdat b) && list_eqb Bool.eqb (vmod a) (vmod b).
+Definition written_rows (sg : seg) (sn : snap) : vtable :=
+  filter (fun r => negb (existsb (same_content r) (sn_vt (sg_before sg)))) (sn_vt sn).
+Definition written_arows (sg : seg) (sn : snap) : list arow :=
+  filter (fun r => negb (existsb (arow_eqb r) (sn_av (sg_before sg)))) (sn_av sn).
+
 (* ------------------------------------------------------------------ C01 *)
 (* r_blind / r_switch switch on the tolerance for the two recorded open findings *)
 Definition C01_commit (r_blind r_switch : bool) (g : cfg) (sg : seg) (sn : snap) : bool :=
@@ -204,6 +215,9 @@ Definition C02_commit (g : cfg) (sg : seg) (sn : snap) : bool :=
    | [T] => forallb (fun r => vtx r =? T) (new_rows sg sn) && forallb (fun r => a_tx r =? T) (new_arows sg sn)
    | _ => false
    end) &&
+  (* (a') no row written in this transaction carries the id of a record created by an EARLIER one *)
+  forallb (fun r => memZ ntx (vtx r)) (written_rows sg sn) &&
+  forallb (fun r => memZ ntx (a_tx r)) (written_arows sg sn) &&
   (* (c) larger than every id that existed before *)
   forallb (fun T => forallb (fun o => o <? T) (sn_tx (sg_before sg))) ntx &&
   (* (d) nothing versioned changed - neither as seen before the flush nor by the flush itself (cascades) -
